@@ -39,7 +39,7 @@ check('C10', 'exploration',
 check('C19', 'exploration',
       "Forced schedules through hooks H1/H2: the consumer is parked exactly between its emptiness check and its wait while producers/close/reset run; every placement of "
       "1..3 producers x second consumer x closer is executed on the real pollQueue/packetQueue (conservation, contiguity, no consumer blocked with a non-empty queue at "
-      "quiescence, close hand-shake). Plus unforced stress, a lonely-packet ping-pong on the real sender loop (a packet added while the sender finishes the previous Send, nothing afterwards) and an end-to-end latency monitor over real long-polling with the window widened by a sleep hook.",
+      "quiescence, close hand-shake). Plus unforced stress, a lonely-packet ping-pong on the real sender loop (a packet added while the sender finishes the previous Send, nothing afterwards), an end-to-end latency monitor over real long-polling with the window widened by a sleep hook, and the Socket.IO layer above the queues: 1..8 emitters at full speed from before Connect() until a moment after the connect handler, then silence — every event handed to Emit must reach the wire of a raw Engine.IO server without later traffic (nothing strands in the client's offline send buffer).",
       "Relies on the hook call sites staying between check and wait; 'stranded' is observed 250 ms after logical quiescence while the consumer's own timeout is 1 h.",
       "hook-gated forced-schedule enumeration + conservation/latency monitors", "DESIGN.md §3 C19")
 
@@ -54,7 +54,7 @@ check('C01', 'exploration',
 check('C02', 'exploration',
       "(a) wire: a raw protocol peer independent of the repository's engine.io code records MESSAGE frames; a strict reference assembler (header -> exactly N binary frames) turns any "
       "interleaving into a protocol error; per-emitter sequence numbers must increase; s->c via raw client, c->s via a raw Engine.IO server, on polling / websocket / after a completed upgrade, "
-      "1..16 emitters, 0..4 attachments. (b) handler-entry order in sio<->sio worlds, incl. a variant where every second event carries ~300 KB (decoding outlasts the dispatch grace); "
+      "1..16 emitters, 0..4 attachments; c->s also across the connect (1/2/4 emitters start before Connect() and run through the flush of the offline buffer). (b) handler-entry order in sio<->sio worlds, incl. a variant where every second event carries ~300 KB (decoding outlasts the dispatch grace); "
       "rare inversions are the known finding (per-packet dispatch goroutines), systematic ones (>= 10 and >= 10 % of a case) are violations.",
       "Order across the swap itself is C07's; ping/pong/noop between frames are ignored.",
       "independent wire observer + strict reassembly state machine + per-emitter monotonicity", "DESIGN.md §3 C02")
@@ -88,7 +88,7 @@ check('C04', 'exploration',
 check('C06', 'fault_enumeration',
       "Cause x phase trials (10 termination causes x {before CONNECT, inside a parked namespace middleware, connected idle, mid-burst c->s, mid-burst s->c, during the polling->websocket "
       "upgrade, two namespaces, Join/Leave storm on the closing socket, second namespace's CONNECT parked while the first socket runs a slow disconnecting handler} x transport) driven by a raw protocol peer through a byte-accurate TCP fault proxy; scripted sessions cut at every k-th byte (k=1 on websocket in thorough) in "
-      "each direction; several causes fired at once; the socket's admission held at a wrapped adapter (public AdapterCreator) while the cause is injected; sessions being opened by 8 goroutines while Server.Close runs; a connection handler that registers its handlers late; the Go client closing its Manager during its own held handshake. Monitors: per-socket counters on connection/disconnecting/disconnect handler entry with the reported reason, and a quiescent-point "
+      "each direction; several causes fired at once; the socket's admission held at a wrapped adapter (public AdapterCreator) while the cause is injected; sessions being opened by 8 goroutines while Server.Close runs; a connection handler that registers its handlers late; the Go client closing its Manager during its own held handshake; with connection-state recovery on, the connection ending (abort, CLOSE packet, Server.Close) while its CONNECT restores a persisted session (RestoreSession held at a wrapped session-aware adapter; control: no fault => recovered and a room member again). Monitors: per-socket counters on connection/disconnecting/disconnect handler entry with the reported reason, and a quiescent-point "
       "sweep over Namespace.Sockets, the adapter index (invariant + snapshot hook), the Engine.IO session-count hook and an HTTP probe with the old sid.",
       "Quiescence = sweep stable and clean under a watchdog of pingInterval+pingTimeout+15 s; allowed reason sets per cause are the monitor's reading of 'a reason naming the cause'.",
       "fault injection (proxy cuts/black-holes, parked middleware) + handler-entry counters + quiescent-state sweep through invariant hooks", "DESIGN.md §3 C06")
@@ -103,11 +103,11 @@ check('C11', 'exploration',
 
 check('C07', 'fault_enumeration',
       "eio<->eio rig (real Engine.IO server and real Go client) through a TCP fault proxy that slows the WebSocket upgrade connection so that numbered text/binary messages (every 97th one 33..113 KB) of both sides keep flowing "
-      "through the swap (1 or 8 goroutines per side inside Send), or holds it back so that the server's first PING is queued on polling at the swap, or refuses / stalls (1 s timeouts) / cuts it at every 8th (quick: 24th) byte of the websocket byte stream in each direction, under three traffic patterns. Oracle: multiset "
+      "through the swap (1 or 8 goroutines per side inside Send), or holds it back so that the server's first PING is queued on polling at the swap, or holds the polling connections beyond the client's upgrade timeout while the websocket answers at once, or refuses / stalls (1 s timeouts) / cuts it at every 8th (quick: 24th) byte of the websocket byte stream in each direction, under three traffic patterns. Oracle: multiset "
       "equality of sent and received numbers at a fence (exactly once while the connection lives, at most once when it legitimately dies after the client swapped), TransportName() on both "
-      "sides, close callbacks counted, Send bounded by a 60 s hang watchdog.",
-      "A cut after the client swapped legitimately kills the connection; order across the swap is not demanded; polling->WebTransport (QUIC) is not exercised (framer covered by C11).",
-      "fault proxy on the upgrade connection + numbered-message multiset oracle + hang watchdog", "DESIGN.md §3 C07")
+      "sides, close callbacks counted, Send bounded by a 60 s hang watchdog. WebTransport part: the same traffic and oracle over polling->WebTransport upgrades of the Go client against the real server over real QUIC on loopback UDP, through a datagram relay {clean, 3 ms per datagram, black hole (attempt fails, polling continues), black hole then a websocket attempt (must end on websocket), dark after the k-th datagram for k over the QUIC handshake, CONNECT, OPEN, probe and UPGRADE}; after a successful swap a second numbered round and fence.",
+      "A cut after the client swapped legitimately kills the connection; order across the swap is not demanded; WebTransport faults are whole-datagram (delay, black hole, darkness after the k-th datagram), not byte cuts.",
+      "fault proxy / datagram relay on the upgrade connection + numbered-message multiset oracle + hang watchdog", "DESIGN.md §3 C07")
 
 check('C12', 'exploration',
       "Real server on loopback; the finite admission matrix is enumerated completely in both tiers: 66 namespace-middleware chains (length 0..5 x first rejection position x kind error/string/struct/map) x 2 "
@@ -172,7 +172,7 @@ check('C05', 'exploration',
 
 check('C16', 'exploration',
       "Built with -race -tags verif,sio_deadlock. A seeded generator produces concurrent API programs (2..16 goroutines x 15..40 operations drawn from 46 public operations on server, namespace, server socket, manager, "
-      "client socket and adapter; a third of the event / ack / connection / disconnecting / disconnect handler invocations issue an operation themselves; transports and recovery vary), run in one child process per "
+      "client socket and adapter; a third of the event / ack / connection / disconnecting / disconnect handler invocations issue an operation themselves, and the Manager's open / close / reconnect / reconnect_attempt / error handlers additionally stop and restart their own Manager or one of its sockets (Disconnect+Connect, Close+Open), emit on it or create sockets; transports and recovery vary), run in one child process per "
       "GOMAXPROCS value (quick {16,4}, thorough {1,2,4,16}) with random yields at hooks H1/H2/H4/H5. Monitors: Go race detector (halt_on_error=0, reports attributed by the first non-runtime frame of the two "
       "accesses, only repository frames count), go-deadlock through the repository's internal/sync aliases (lock wait > 45 s with a stuck or vanished holder = violation, lock-order reports = warnings), a 60 s per-operation watchdog with goroutine "
       "dump, and child exit status (fatal errors such as concurrent map access).",
